@@ -21,7 +21,8 @@ RULE = ("cases: random recipes evaluated on interpretations that fix, sub-range 
         "numpy.int64, (lo,hi), Bounds), optionally fixing sub-proposition ids to constants; flags and equation bounds "
         "read on every node of the model. non-trivial: >=1 leaf left open and the top is undecided (non-constant result) "
         "for the interpretation; distinct by (shape digest, open-leaf pattern)")
-BUDGET = {"quick": (8, 160, 60), "thorough": (16, 2500, 900)}
+BUDGET = {"quick": (12, 260, 90), "thorough": (16, 2200, 1200)}
+PYTEST = True     # thorough tier also runs the repository's own tests under these monitors
 MANDATORY = ["judged:containment", "judged:tautology-sound", "judged:contradiction-sound", "judged:equation-bounds-exact",
              "count:flag-true:tautology", "count:flag-true:contradiction", "count:constant-result-with-open-leaves"]
 
